@@ -5,7 +5,7 @@
 From Coq Require Import String List ZArith Bool Sorting.Sorted.
 From SV Require Import Consumer.Parse Consumer.Log Consumer.ParseProofs Consumer.RunProofs Consumer.MoreProofs
   Consumer.Feeder Consumer.FeederProofs Consumer.Refcount Consumer.RefcountProofs Consumer.Pipeline
-  Consumer.PipelineProofs Consumer.PipelineExact Gen.GoInt Gen.DecTypes Gen.DecC03 Consumer.TieProofs.
+  Consumer.PipelineProofs Consumer.PipelineExact Gen.GoInt Gen.DecTypes Gen.DecTypes2 Gen.DecC03 Gen.DecC11 Consumer.TieProofs.
 Import ListNotations.
 Open Scope Z_scope.
 
@@ -188,6 +188,28 @@ Theorem c03_tie_fetch_size : forall c fs off, -9223372036854775808 <= off + 1 < 
   else (grow c fs, off, [], @ExFall unit).
 Proof. exact tie_fetch_size. Qed.
 Print Assumptions c03_tie_fetch_size.
+
+(* the generated loops of parseRecords / parseMessages (per block) are [accept] over the batch's / block's candidates
+   ([in64]: the offsets involved and their successors fit int64) *)
+Theorem c03_tie_parse_records : forall (b : rbatch) o,
+  Forall (fun r => in64 (rb_first b + rc_delta r)) (rb_recs b) -> in64 o ->
+  DecC03.parse_records o (rb_first b) (map rc_delta (rb_recs b)) (rb_logappend b) =
+  (snd (Parse.parse_records o b), offs (fst (Parse.parse_records o b)), ENil).
+Proof. exact tie_parse_records. Qed.
+Print Assumptions c03_tie_parse_records.
+
+Theorem c03_tie_parse_messages_inner : forall (b : lblock) o acc,
+  Forall (fun m => in64 (lm_offset (lb_own b) - last_offset (block_msgs b)) /\ in64 (cm_offset (legacy_cand b m))) (block_msgs b) ->
+  parse_messages_inner o acc (map lmsg_triple (block_msgs b)) (lm_offset (lb_own b)) (last_offset (block_msgs b)) =
+  (snd (accept o (block_cands b)), acc ++ offs (fst (accept o (block_cands b))), @ExFall unit).
+Proof. exact tie_parse_messages_inner. Qed.
+Print Assumptions c03_tie_parse_messages_inner.
+
+(* FetchResponseBlock.decode: a Records element kept after the first one has records (what [data] assumes of the set) *)
+Theorem c03_tie_keep_records : forall rs n partial id fu, rs <> [] ->
+  fst (fst (keep_records rs n partial id fu)) = rs ++ [id] -> 0 < n.
+Proof. exact tie_keep_records_later. Qed.
+Print Assumptions c03_tie_keep_records.
 
 (* the hypotheses are satisfiable: a compacted log, a fetch into a hole answered with two batches *)
 Theorem c03_example : wf_log holes_log /\ data cfg0 holes_log [] st13 holes_resp /\
